@@ -14,6 +14,10 @@ inductive BEntry where
   | vec (xs : List Num)
 deriving DecidableEq, Repr, Inhabited
 
+def BEntry.isScalar : BEntry → Bool
+  | .scalar _ => true
+  | .vec _ => false
+
 namespace VarDecl
 
 /-- `2 - eps` : the upper bound `BinaryVariable.get_bounds` reports, exactly `2 - 2^-52`. -/
@@ -24,17 +28,26 @@ value `u` and the model only checks `n - 1 < u < n`. -/
 def permUbOk (n : Nat) (u : Num) : Bool :=
   Num.lt (discUb n) u && Num.lt u (.fin ((n : Int) : Rat))
 
-/-- the `(lb_, ub_)` pair that `Task.get_bounds` extends its lists with for one declared variable, i.e.
-`v.get_bounds()` followed by `lb.extend(lb_ if v.has_children() else [lb_])` (models.py:474-477).
-`permUb` is the observed `n - 1e-4`. -/
-def boundEntries (permUb : Nat → Num) : VarDecl → Except Err (List BEntry × List BEntry)
-  | cont lb ub => .ok ([.scalar lb], [.scalar ub])
-  | contMulti lbs ubs => .ok (lbs.map .scalar, ubs.map .scalar)
-  | multiObj lbs ubs => .ok (lbs.map .scalar, ubs.map .scalar)
-  | disc n => .ok ([.scalar (.fin 0)], [.scalar (discUb n)])
-  | discMulti ns => .ok (ns.map (fun _ => .scalar (.fin 0)), ns.map (fun n => .scalar (discUb n)))
-  | perm n => .ok ([.vec (List.replicate n (.fin 0))], [.vec (List.replicate n (permUb n))])
-  | binary n => .ok (List.replicate n.toNat (.scalar (.fin 0)), List.replicate n.toNat (.scalar binaryUb))
+/-- the `lb_` that `Task.get_bounds` extends its list with for one declared variable, i.e. the first component of
+`v.get_bounds()` followed by `lb.extend(lb_ if v.has_children() else [lb_])` (models.py:474-477). -/
+def lowerEntries : VarDecl → List BEntry
+  | cont lb _ => [.scalar lb]
+  | contMulti lbs _ => lbs.map .scalar
+  | multiObj lbs _ => lbs.map .scalar
+  | disc _ => [.scalar (.fin 0)]
+  | discMulti ns => ns.map (fun _ => .scalar (.fin 0))
+  | perm n => [.vec (List.replicate n (.fin 0))]
+  | binary n => List.replicate n.toNat (.scalar (.fin 0))
+
+/-- likewise for `ub_`; `permUb n` is the observed double `n - 1e-4`. -/
+def upperEntries (permUb : Nat → Num) : VarDecl → List BEntry
+  | cont _ ub => [.scalar ub]
+  | contMulti _ ubs => ubs.map .scalar
+  | multiObj _ ubs => ubs.map .scalar
+  | disc n => [.scalar (discUb n)]
+  | discMulti ns => ns.map (fun n => .scalar (discUb n))
+  | perm n => [.vec (List.replicate n (permUb n))]
+  | binary n => List.replicate n.toNat (.scalar binaryUb)
 
 end VarDecl
 
@@ -54,20 +67,16 @@ def getVariables (t : TaskDecl) : List Var := t.vars.flatMap VarDecl.children
 
 /-- `np.array(lb)` succeeds iff the list is homogeneous: all scalars, or all vectors of one length. -/
 def homogeneous (l : List BEntry) : Bool :=
-  l.all (fun e => match e with | .scalar _ => true | .vec _ => false) ||
+  l.all BEntry.isScalar ||
   match l with
   | [] => true
   | .vec xs :: rest => rest.all (fun e => match e with | .vec ys => decide (ys.length = xs.length) | .scalar _ => false)
   | .scalar _ :: _ => false
 
-/-- `get_bounds` (models.py:466-479). -/
-def getBounds (permUb : Nat → Num) (t : TaskDecl) : Except Err (List BEntry × List BEntry) := do
-  let rec go : List VarDecl → List BEntry → List BEntry → Except Err (List BEntry × List BEntry)
-    | [], lb, ub => .ok (lb, ub)
-    | v :: vs, lb, ub => do
-      let (l, u) ← v.boundEntries permUb
-      go vs (lb ++ l) (ub ++ u)
-  let (lb, ub) ← go t.vars [] []
+/-- `get_bounds` (models.py:466-479): concatenate the per-variable entries, then `np.array` (which needs homogeneity). -/
+def getBounds (permUb : Nat → Num) (t : TaskDecl) : Except Err (List BEntry × List BEntry) :=
+  let lb := t.vars.flatMap VarDecl.lowerEntries
+  let ub := t.vars.flatMap (VarDecl.upperEntries permUb)
   if homogeneous lb && homogeneous ub then .ok (lb, ub) else .error .valueError
 
 /-- `[v.correct(c) for c, v in zip(solution, variables)]` (models.py:489-490): `zip` truncates to the shorter list. -/
